@@ -131,6 +131,15 @@ Proof.
   destruct r1; apply res_eqv_same; exact Ht.
 Qed.
 
+Lemma remove_list_eqv e l : forall s1 s2, eqv s1 s2 -> res_eqv (remove_list e s1 l) (remove_list e s2 l).
+Proof.
+  induction l as [|a t IH]; intros s1 s2 H; simpl; [apply res_eqv_same; exact H|].
+  pose proof (remove_eqv e s1 s2 a H) as H1.
+  destruct (remove e s1 a) as [t1 r1]. destruct (remove e s2 a) as [t2 r2].
+  destruct H1 as [Ht Hr]. simpl in Ht, Hr. subst r2.
+  destruct r1; try (apply res_eqv_same; exact Ht). apply IH. exact Ht.
+Qed.
+
 Lemma random_empty_eqv e s1 s2 tr out : eqv s1 s2 -> random_empty e s1 tr out = random_empty e s2 tr out.
 Proof.
   intros H. unfold random_empty. rewrite <- (eqv_empties e s1 s2 H).
@@ -140,12 +149,15 @@ Qed.
 
 Lemma step_eqv e s1 s2 o : eqv s1 s2 -> res_eqv (step e s1 o) (step e s2 o).
 Proof.
-  intros H. destruct o as [a tgt|a c|a d|a name k|a|tr out|a tr out]; simpl.
+  intros H. destruct o as [a tgt|a c|a d|a name k|a| |tr out|a tr out]; simpl.
   - destruct (in_agents e a && _); [apply assign_eqv|apply res_eqv_same]; exact H.
   - destruct (in_agents e a && in_cells e c && negb (is_fixed (e_kind e a))); [apply set_cell_eqv|apply res_eqv_same]; exact H.
   - destruct (in_agents e a && negb (is_fixed (e_kind e a))); [apply move_relative_eqv|apply res_eqv_same]; exact H.
   - destruct (in_agents e a && is_grid2d (e_kind e a)); [apply move2d_eqv|apply res_eqv_same]; exact H.
   - destruct (in_agents e a); [apply remove_eqv|apply res_eqv_same]; exact H.
+  - assert (filter (reg s2) (agents_dom e) = filter (reg s1) (agents_dom e)) as ->.
+    { apply filter_ext. intros a. symmetry. apply H. }
+    apply remove_list_eqv. exact H.
   - rewrite <- (random_empty_eqv e s1 s2 tr out H). apply res_eqv_same. exact H.
   - destruct (in_agents e a); [|apply res_eqv_same; exact H].
     rewrite <- (random_empty_eqv e s1 s2 tr out H).
@@ -241,6 +253,14 @@ Definition a_remove (e : env) (t : astate) (a : Z) : astate * result :=
   | _ => (a_set_loc t0 a None, Ok [])
   end.
 
+Fixpoint a_remove_list (e : env) (t : astate) (l : list Z) : astate * result :=
+  match l with
+  | [] => (t, Ok [])
+  | a :: r =>
+      let '(t1, res) := a_remove e t a in
+      match res with Ok _ => a_remove_list e t1 r | _ => (t1, res) end
+  end.
+
 Definition a_is_empty (e : env) (t : astate) (c : Z) : bool := is_nil (occupants e t c).
 Definition a_empties (e : env) (t : astate) : list Z := filter (a_is_empty e t) (cells_dom e).
 
@@ -266,6 +286,7 @@ Definition astep (e : env) (t : astate) (o : op) : astate * result :=
   | Move2D a name k =>
       if in_agents e a && is_grid2d (e_kind e a) then a_move2d e t a name k else (t, NotApplicable)
   | Remove a => if in_agents e a then a_remove e t a else (t, NotApplicable)
+  | RemoveAll => a_remove_list e t (filter (a_reg t) (agents_dom e))
   | RandomEmpty tr out => (t, snd (a_random_empty e t tr out))
   | PlaceRandomEmpty a tr out =>
       if in_agents e a then
@@ -556,9 +577,20 @@ Proof.
     destruct (walk e l (Z.to_nat k) c0); [apply sim_set_cell; assumption|apply sim_same; exact HR].
 Qed.
 
+Lemma sim_remove_list l : forall s t,
+  R s t -> (forall a, In a l -> in_agents e a = true) -> sim (remove_list e s l) (a_remove_list e t l).
+Proof.
+  induction l as [|a r IH]; intros s t HR Hl; simpl; [apply sim_same; exact HR|].
+  pose proof (sim_remove s t a HR (Hl a (or_introl eq_refl))) as H1.
+  destruct (remove e s a) as [s1 r1]. destruct (a_remove e t a) as [t1 q1].
+  destruct H1 as [H1 H2]. simpl in H1, H2. subst q1.
+  destruct r1; try (apply sim_same; exact H1).
+  apply IH; [exact H1|]. intros a' Hin. apply Hl. right. exact Hin.
+Qed.
+
 Theorem sim_step s t o : R s t -> sim (step e s o) (astep e t o).
 Proof.
-  intros HR. destruct o as [a tgt|a c|a d|a name k|a|tr out|a tr out]; simpl.
+  intros HR. destruct o as [a tgt|a c|a d|a name k|a| |tr out|a tr out]; simpl.
   - destruct (in_agents e a) eqn:Ha; simpl; [|apply sim_same; exact HR].
     destruct (match tgt with Some c => in_cells e c | None => true end); [apply sim_assign; assumption|apply sim_same; exact HR].
   - destruct (in_agents e a) eqn:Ha; simpl; [|apply sim_same; exact HR].
@@ -572,6 +604,9 @@ Proof.
     destruct (is_grid2d (e_kind e a)) eqn:Eg; simpl; [|apply sim_same; exact HR].
     apply sim_move2d; [exact HR|exact Ha|apply is_grid2d_true; exact Eg].
   - destruct (in_agents e a) eqn:Ha; [apply sim_remove; assumption|apply sim_same; exact HR].
+  - assert (filter (a_reg t) (agents_dom e) = filter (reg s) (agents_dom e)) as ->.
+    { apply filter_ext. intros a. symmetry. apply (r_reg s t HR). }
+    apply sim_remove_list; [exact HR|]. intros a Hin. apply filter_In in Hin. apply in_agents_dom. tauto.
   - rewrite <- (R_random_empty s t tr out HR). apply sim_same. exact HR.
   - destruct (in_agents e a) eqn:Ha; [|apply sim_same; exact HR].
     rewrite <- (R_random_empty s t tr out HR).
@@ -763,3 +798,17 @@ Proof.
       destruct (walk e l (Z.to_nat n) c0) as [c1|]; [|injection H as _ <-; tauto].
       eapply Hset; eassumption.
 Qed.
+
+(* ---------------------------------------------------------------- the C18 lemmas under the names Properties/C18.v re-exports *)
+Lemma C18_cellspace_atomic_obs e s o s' k :
+  caps_ok e -> Inv e s -> step e s o = (s', Err k) -> obs e s' (Err k) = obs e s (Err k).
+Proof. intros Hc HI H. unfold obs. f_equal. eapply step_err_view; eassumption. Qed.
+
+Lemma C18_cellspace_atomic_reachable e ops o s' k :
+  caps_ok e -> step e (exec e init ops) o = (s', Err k) ->
+  view e s' = view e (exec e init ops) /\ eqv (exec e init ops) s'.
+Proof. apply atomic_all. Qed.
+
+Lemma C18_cellspace_atomic_rest_of_history e s o s' k rest :
+  caps_ok e -> Inv e s -> step e s o = (s', Err k) -> run_ops e s' rest = run_ops e s rest.
+Proof. apply rejected_then_continue. Qed.
